@@ -1,6 +1,6 @@
 /-
   Props/C02.lean — PROPERTY THEOREMS for C02 (record fields agree with the listed pairs and with
-  the input maps).  Statements only; proofs in Proofs/Fields.lean.
+  the input maps).  Statements only; proofs in Proofs/Fields.lean, Proofs/FieldsOrder.lean.
 
   Models: `Row.create` (src/alignment/alignment_results.py:68-86), `OMap.labels`
   (src/correlation/optical_map.py:45-56), `unalignedFragments` (alignment_results.py:179-228),
@@ -9,6 +9,7 @@
 -/
 import Props.Defs
 import Proofs.Fields
+import Proofs.FieldsOrder
 namespace Coma.Props
 open Coma Coma.Spec
 
@@ -78,6 +79,32 @@ theorem C02_columns (x : XRow) :
 /-- non-vacuity: a reverse-strand two-pair segment -/
 example : (Row.create ⟨1000, 1, -250, 1500, 1000, 1200⟩
     [⟨500, [.pair ⟨⟨4, 9000⟩, ⟨7, 8500⟩, 0, 0⟩, .pair ⟨⟨5, 12000⟩, ⟨6, 11500⟩, 0, 0⟩]⟩] 3 1 20001 99999 true).qStart = 11500 := by
+  decide +kernel
+
+/-- start/end order: reference start ≤ end; query start ≤ end on '+', start ≥ end on '-' — for every record
+    whose pairs are listed with ascending reference coordinates and with query coordinates (in the strand's
+    frame, as `OMap.labels rev` gives them) ascending along the list -/
+theorem C02_start_end_order (P : Params) (segs : List Seg) (qid rid ql rl : Int) (rev : Bool)
+    (ha : Ascending ((segs.flatMap Seg.pairs).map (fun p => p.r.pos)))
+    (hq : Ascending ((segs.flatMap Seg.pairs).map (fun p => p.q.pos))) :
+    let row := Row.create P segs qid rid ql rl rev
+    row.rStart ≤ row.rEnd ∧ (rev = false → row.qStart ≤ row.qEnd) ∧ (rev = true → row.qEnd ≤ row.qStart) :=
+  Coma.Proofs.row_start_end_order P segs qid rid ql rl rev ha hq
+
+/-- in `m.labels rev` coordinates ascend with the label number on '+', descend on '-' (for a map with ascending positions) -/
+theorem C02_frame_monotone (m : OMap) (rev : Bool) (hm : Ascending m.positions) (l1 l2 : Lbl)
+    (h1 : l1 ∈ m.labels rev) (h2 : l2 ∈ m.labels rev) (hs : l1.site ≤ l2.site) :
+    if rev then l2.pos ≤ l1.pos else l1.pos ≤ l2.pos :=
+  Coma.Proofs.labels_frame_monotone m rev hm l1 l2 h1 h2 hs
+
+/-- non-vacuity: a reverse-strand row of two one-pair segments satisfies the hypotheses of
+    `C02_start_end_order` and has QryEndPos strictly below QryStartPos -/
+example :
+    let segs : List Seg := [⟨500, [.pair ⟨⟨4, 9000⟩, ⟨7, 8500⟩, 0, 0⟩]⟩, ⟨700, [.pair ⟨⟨5, 12000⟩, ⟨6, 11500⟩, 0, 0⟩]⟩]
+    let row := Row.create ⟨1000, 1, -250, 1500, 1000, 1200⟩ segs 3 1 20001 99999 true
+    (segs.flatMap Seg.pairs).map (fun p => p.r.pos) = [9000, 12000] ∧
+    (segs.flatMap Seg.pairs).map (fun p => p.q.pos) = [8500, 11500] ∧
+    row.qEnd < row.qStart ∧ row.rStart < row.rEnd := by
   decide +kernel
 
 end Coma.Props
